@@ -19,6 +19,10 @@ What one run does
      octet, so prefixes are real: /0 or /(8+p)), a UDP listener sits on every destination, and
      the source port of the datagram that arrives identifies the socket `poll_send` used; it
      must be a member of TLC's `allowed` set (or nothing may arrive when the set is empty).
+     The local ports of one configuration are made pairwise distinct (the kernel may hand the same
+     ephemeral port to sockets bound to different addresses; the harness binds again until they
+     differ), and a verdict read off the network is reported only when the case shows it again
+     in a second execution on fresh sockets with a 300 ms wait (the dispatch is deterministic).
      Relay and custom paths must reach exactly the relay sender / the first custom sender that
      accepts the address id, and no IP socket.  For IPv6 (no routable addresses in the
      sandbox) the real decision functions `is_valid_send_addr` / `is_valid_default_addr` are
@@ -55,7 +59,9 @@ META = {
             "TransportsSender::poll_send, and the source port seen by a listener on the destination identifies the socket used, which "
             "must be one the model allows; relay and custom paths must end in the relay sender / the matching custom sender only.",
     "note": "IPv6 is bound at the level of the two decision functions (no routable IPv6 in the sandbox). Ties between equally long "
-            "prefixes (or several sockets matching a source) are accepted either way. The mapping from synthetic QUIC addresses to "
+            "prefixes (or several sockets matching a source) are accepted either way. The sending socket is identified by its source port "
+            "(ports of one configuration are made pairwise distinct) and a verdict read off the network is confirmed by a second "
+            "execution of the case before it is reported (the dispatch is deterministic). The mapping from synthetic QUIC addresses to "
             "paths (Sender::poll_send) needs a live Socket and is not driven here; its classification and lookup parts are C18.",
     "design_ref": "§6 C19",
 }
@@ -64,7 +70,7 @@ META = {
 def run(ctx):
     if ctx.replay:
         rep = json.load(open(ctx.replay))["replay"]
-        judge(ctx, [rep], execute(ctx, [rep], "replay"))
+        judge(ctx, [rep], execute(ctx, [rep], "replay", wait_ms=300))
         return
     v4 = {"Fams": '{"v4"}', "Scopes": "{0}"}
     v6 = {"Fams": '{"v6"}', "Scopes": "{0, 3}"}
@@ -109,16 +115,27 @@ def run(ctx):
                       "real": "v6" not in fams})
     if not cases:
         raise ToolError("TLC produced no cases")
-    judge(ctx, cases, execute(ctx, cases, "all"))
+    # Verdicts read off the loopback network (which socket, dropped or not) are confirmed before they are
+    # reported: the dispatch is a pure function of (routing table, route), so a real violation shows again
+    # when the case is executed a second time (fresh sockets, 300 ms instead of 30 ms for "nothing arrived");
+    # a late datagram does not.  Decision-function mismatches and panics are reported at once.
+    suspects = judge(ctx, cases, execute(ctx, cases, "all"), final=False)
+    if suspects:
+        ctx.cov["cases_executed_twice"] = len(suspects)
+        again = [cases[i] for i in suspects[:40]]
+        judge(ctx, again, execute(ctx, again, "confirm", wait_ms=300), final=True, immediate=False)
     ctx.cov["rule"] = ("every configuration of the SendDispatch spec within the generator bounds x every route (exhaustive); "
                        "non-trivial = at least two sockets or a route with a source address")
     ctx.cov["exhaustive"] = True
-    ctx.assume("the source port of a datagram received on a loopback listener identifies the sending socket")
-    ctx.assume("the kernel delivers a loopback datagram to a bound listener within 30 ms of sendmsg returning")
+    ctx.assume("the source port of a datagram received on a loopback listener identifies the sending socket "
+               "(the harness binds again until the local ports of a configuration are pairwise distinct)")
+    ctx.assume("the kernel delivers a loopback datagram to a bound listener within 30 ms of sendmsg returning "
+               "(300 ms when a case is executed again to confirm a verdict)")
 
 
-def execute(ctx, cases, tag):
-    inp = ctx.write_ndjson("c19-%s.in" % tag, [{k: c[k] for k in ("binds", "routes", "variant", "real")} for c in cases])
+def execute(ctx, cases, tag, wait_ms=0):
+    inp = ctx.write_ndjson("c19-%s.in" % tag, [dict({k: c[k] for k in ("binds", "routes", "variant", "real")}, wait_ms=wait_ms)
+                                                for c in cases])
     outp = ctx.path("c19-%s.out" % tag)
     ctx.run_bin("vh_socktx", ["c19", "--in", inp, "--out", outp], timeout=1800)
     obs = ctx.read_ndjson(outp)
@@ -132,13 +149,26 @@ def desc(b):
                             " default" if b["dflt"] else "", " scope %d" % b["scope"] if b["scope"] else "")
 
 
-def judge(ctx, cases, obs):
+def judge(ctx, cases, obs, final=True, immediate=True):
+    """Compares observations with TLC's expectations.  final=False: verdicts that depend on what was seen on
+    the network are not reported; the indices of those cases are returned so that they are executed again.
+    immediate=False (the second execution): decision-function mismatches and counts were already taken."""
     envfail = 0
-    for c, o in zip(cases, obs):
+    suspects = []
+
+    def observed(ci, sig, what, c):
+        if final:
+            ctx.report(sig, what, c)
+        elif ci not in suspects:
+            suspects.append(ci)
+
+    for ci, (c, o) in enumerate(zip(cases, obs)):
         if o.get("panic"):
             ctx.report({"kind": "panic"}, "send dispatch panicked on %s: %s" % ([desc(b) for b in c["binds"]], o["panic"]), c)
             continue
         if o["env"]:
+            if not immediate:
+                raise ToolError("environment: %s while a verdict was being confirmed" % o["env"])
             envfail += 1
             if envfail > max(3, len(cases) // 10):
                 raise ToolError("environment: %s (and %d more cases)" % (o["env"], envfail - 1))
@@ -146,10 +176,11 @@ def judge(ctx, cases, obs):
         if len(o["routes"]) != len(c["routes"]):
             raise ToolError("harness executed %d of %d routes" % (len(o["routes"]), len(c["routes"])))
         for r, e, g in zip(c["routes"], c["exp"], o["routes"]):
-            ctx.count(case_key=[c["binds"], r], nontrivial=len(c["binds"]) >= 2 or r["hasSrc"])
+            if immediate:
+                ctx.count(case_key=[c["binds"], r], nontrivial=len(c["binds"]) >= 2 or r["hasSrc"])
             what = "binds [%s], route %s" % ("; ".join(desc(b) for b in c["binds"]), json.dumps(r, sort_keys=True))
             base = {"fam": r["fam"], "has_src": r["hasSrc"], "ll": r["ll"]}
-            if r["fam"] in ("v4", "v6"):
+            if r["fam"] in ("v4", "v6") and immediate:
                 # the two decision functions, per bound socket
                 for i, b in enumerate(c["binds"]):
                     if g["vs"][i] != e["vs"][i] or g["vd"][i] != e["vd"][i]:
@@ -165,36 +196,37 @@ def judge(ctx, cases, obs):
                 # a per-datagram error/pending is not fatal at this level; it is an observation, not a verdict
                 ctx.cov["non_ok_results"] = ctx.cov.get("non_ok_results", 0) + 1
             if g["kind"] == "multi":
-                ctx.report(dict(base, kind="duplicated"), "one datagram was handed to several transports: %s; %s" % (g["detail"], what), c)
+                observed(ci, dict(base, kind="duplicated"), "one datagram was handed to several transports: %s; %s" % (g["detail"], what), c)
                 continue
             if r["fam"] in ("v4", "v6"):
                 allowed = e["allowed"]
                 if not allowed:
                     if g["kind"] != "drop":
-                        ctx.report(dict(base, kind="sent_instead_of_drop"), "datagram left socket %s although no socket may take it; %s"
+                        observed(ci, dict(base, kind="sent_instead_of_drop"), "datagram left socket %s although no socket may take it; %s"
                                    % (g["idx"], what), c)
                 elif g["kind"] == "drop":
                     if g["ret"] == "ok":
-                        ctx.report(dict(base, kind="dropped", allowed_default=all(c["binds"][i - 1]["dflt"] for i in allowed)),
+                        observed(ci, dict(base, kind="dropped", allowed_default=all(c["binds"][i - 1]["dflt"] for i in allowed)),
                                    "datagram was dropped although sockets %s may take it; %s" % (allowed, what), c)
                     else:
                         ctx.cov["send_errors"] = ctx.cov.get("send_errors", 0) + 1
                 elif g["kind"] != "ip" or g["idx"] not in allowed:
                     got = c["binds"][g["idx"] - 1] if 1 <= g["idx"] <= len(c["binds"]) else None
-                    ctx.report(dict(base, kind="wrong_socket",
+                    observed(ci, dict(base, kind="wrong_socket",
                                     got_prefix_shorter=bool(got) and got["plen"] < max(c["binds"][i - 1]["plen"] for i in allowed)),
                                "datagram left socket %s (%s), the statement allows only %s; %s"
                                % (g["idx"], desc(got) if got else g["kind"], allowed, what), c)
                 elif not g["right_dst"]:
-                    ctx.report(dict(base, kind="wrong_destination"), "datagram arrived at another destination; %s" % what, c)
+                    observed(ci, dict(base, kind="wrong_destination"), "datagram arrived at another destination; %s" % what, c)
                 elif (len(c["binds"]) >= 2 and len(ctx.cov["samples"]) < 4 and len(allowed) == 1
                       and len({b["plen"] for b in c["binds"]}) > 1 and r["hasSrc"] == (len(ctx.cov["samples"]) % 2 == 1)):
                     ctx.sample({"binds": [desc(b) for b in c["binds"]], "route": r, "allowed": allowed, "socket_used": g["idx"]})
             else:
                 m = e["model"]
                 if g["kind"] != m["kind"] or (m["kind"] != "drop" and (g["idx"] != m["idx"] or not g["right_dst"])):
-                    ctx.report(dict(base, kind="wrong_transport", got=g["kind"]),
+                    observed(ci, dict(base, kind="wrong_transport", got=g["kind"]),
                                "%s path was handed to %s #%s (intact: %s), the spec says %s #%s"
                                % (r["fam"], g["kind"], g["idx"], g["right_dst"], m["kind"], m["idx"]), c)
     if envfail:
         ctx.assume("%d configurations could not be bound in this environment and were skipped" % envfail)
+    return suspects
